@@ -426,10 +426,9 @@ fn variant(flags: usize, a: &[u8]) -> Vec<u8> {
 /// class of a header set with respect to what the armor format can represent
 #[derive(Clone, Copy, PartialEq, Eq, Debug)]
 enum HClass {
-    /// keys non-empty, no line break, no ": " inside; values without line break
+    /// keys non-empty, no line break, no ": " inside; values without line break (anything else
+    /// goes: ':' at any position, ": " inside, trailing blanks, empty) — the class the format carries
     Plain,
-    /// as Plain, but some value ends in ':' (unambiguous in the format)
-    ValueEndsInColon,
 }
 
 fn header_sets() -> Vec<(Headers, HClass)> {
@@ -443,17 +442,40 @@ fn header_sets() -> Vec<(Headers, HClass)> {
     ]
 }
 
-fn header_sets_edge() -> Vec<(Headers, HClass)> {
-    vec![
-        (mk_headers(&[("Comment", vec!["see below:"])]), HClass::ValueEndsInColon),
-        (mk_headers(&[("A", vec!["x"]), ("B", vec!["y:"])]), HClass::ValueEndsInColon),
-    ]
+/// header maps around the colon: ':' and ": " at every position of a value, ':' at every position
+/// of a key, empty values, several values under one key, blanks, UTF-8 (D10c regression class)
+fn header_sets_colon(long: bool) -> Vec<(Headers, HClass)> {
+    let mut out: Vec<(Headers, HClass)> = vec![
+        (mk_headers(&[("Comment", vec!["see below:"])]), HClass::Plain),
+        (mk_headers(&[("A", vec!["x"]), ("B", vec!["y:"])]), HClass::Plain),
+        (mk_headers(&[("Comment", vec!["a:", "", ": ", "b: c", "a:", ":", "::", " ", "  two blanks after  "])]), HClass::Plain),
+        (mk_headers(&[("K", vec![""]), ("K2", vec!["", ""]), ("K3", vec![":"])]), HClass::Plain),
+        (mk_headers(&[("k:", vec![": "]), ("k::", vec!["::"]), (":", vec![":"]), (":k", vec!["v"]), ("k :", vec!["v :"])]), HClass::Plain),
+        (mk_headers(&[("Schlüssel:é", vec!["Grüße: мир:", "世界: 🔐: "]), ("é", vec![":é:"])]), HClass::Plain),
+        (mk_headers(&[("X", vec!["-----BEGIN PGP MESSAGE-----", "=AAAA", "Key: Value", "Hash: SHA256"])]), HClass::Plain),
+    ];
+    let base_v = if long { "ab cd=e/f+g" } else { "ab cd" };
+    for ins in [":", ": ", " :", "::"] {
+        for p in 0..=base_v.len() {
+            let v = format!("{}{}{}", &base_v[..p], ins, &base_v[p..]);
+            out.push((mk_headers(&[("Key", vec![v.as_str()])]), HClass::Plain));
+        }
+    }
+    let base_k = if long { "Kxy-z w" } else { "Kxy" };
+    for p in 0..=base_k.len() {
+        let k = format!("{}:{}", &base_k[..p], &base_k[p..]);
+        if k.contains(": ") {
+            // outside the class: `"a: b: c"` is a key `a` by the format's own rule
+            continue;
+        }
+        out.push((mk_headers(&[(k.as_str(), vec!["v", "w:"])]), HClass::Plain));
+    }
+    out
 }
 
 fn hclass_arg(c: HClass) -> &'static str {
     match c {
         HClass::Plain => "plain",
-        HClass::ValueEndsInColon => "value-ends-in-colon",
     }
 }
 
@@ -542,10 +564,7 @@ fn armor_case(ctx: &mut Ctx, t: Typ, h: &Headers, hc: HClass, ck: bool, d: &Data
     ctx.case(rt_req.clone(), ans.clone());
     let cleartext = t.0 == 6;
     if !cleartext {
-        let site = match hc {
-            HClass::Plain => "armor::write -> Dearmor (read_to_end)".to_string(),
-            HClass::ValueEndsInColon => "armor::write -> Dearmor; armor/reader.rs key_value_pair (header value ending in ':')".to_string(),
-        };
+        let site = "armor::write -> Dearmor (read_to_end); armor/reader.rs key_value_pair".to_string();
         ctx.oracle("armor_roundtrip", &site, &format!("{rt_req} hclass={}", hclass_arg(hc)), matches_expected(&p, &e), &ans);
     }
     // CRC check on
@@ -920,6 +939,25 @@ fn raw_cases(ctx: &mut Ctx) {
         b"-----BEGIN PGP MESSAGE-----\nK\xc3\xa9y: \xe2\x82\xac\n\naGVsbG8=\n-----END PGP MESSAGE-----\n",
         b"-----BEGIN PGP MESSAGE-----\nKey: a\rb\n\naGVsbG8=\n-----END PGP MESSAGE-----\n",
         b"-----BEGIN PGP MESSAGE-----\n: v\n\naGVsbG8=\n-----END PGP MESSAGE-----\n",
+        b"-----BEGIN PGP MESSAGE-----\n:\n\naGVsbG8=\n-----END PGP MESSAGE-----\n",
+        b"-----BEGIN PGP MESSAGE-----\n::\n\naGVsbG8=\n-----END PGP MESSAGE-----\n",
+        b"-----BEGIN PGP MESSAGE-----\n: \n\naGVsbG8=\n-----END PGP MESSAGE-----\n",
+        b"-----BEGIN PGP MESSAGE-----\na: b: c\n\naGVsbG8=\n-----END PGP MESSAGE-----\n",
+        b"-----BEGIN PGP MESSAGE-----\na:b: c:\n\naGVsbG8=\n-----END PGP MESSAGE-----\n",
+        b"-----BEGIN PGP MESSAGE-----\nKey :\nKey: \nKey:\r\nKey: v \r\n\naGVsbG8=\n-----END PGP MESSAGE-----\n",
+        b"-----BEGIN PGP MESSAGE-----\nno colon here\n\naGVsbG8=\n-----END PGP MESSAGE-----\n",
+        b"-----BEGIN PGP MESSAGE-----\nA: x\nno colon here\n\naGVsbG8=\n-----END PGP MESSAGE-----\n",
+        b"-----BEGIN PGP MESSAGE-----\nKey: value",
+        b"-----BEGIN PGP MESSAGE-----\nKey: value\n",
+        b"-----BEGIN PGP MESSAGE-----\nKey: value\r",
+        b"-----BEGIN PGP MESSAGE-----\nKey: value\n\n",
+        b"-----BEGIN PGP MESSAGE-----\nKey:",
+        b"-----BEGIN PGP MESSAGE-----\nA: x\nKey: v\xc3\n\naGVsbG8=\n-----END PGP MESSAGE-----\n",
+        b"-----BEGIN PGP MESSAGE-----\n\xff\xfe: v\n\naGVsbG8=\n-----END PGP MESSAGE-----\n",
+        b"-----BEGIN PGP MESSAGE-----\nK\xc3\xa9: \xe2\x82\xac:\n\naGVsbG8=\n-----END PGP MESSAGE-----\n",
+        b"-----BEGIN PGP MESSAGE-----\n \t\nKey: v\n\naGVsbG8=\n-----END PGP MESSAGE-----\n",
+        b"-----BEGIN PGP MESSAGE-----\nKey: v\n \t \naGVsbG8=\n-----END PGP MESSAGE-----\nNote: trailing: text:\n",
+        b"-----BEGIN PGP MESSAGE-----\nComment: see below:\n\naGVsbG8=\n-----END PGP MESSAGE-----\n",
         b"x-----BEGIN PGP MESSAGE-----\n\naGVsbG8=\n-----END PGP MESSAGE-----\n",
         b"--- ----BEGIN\n-----BEGIN PGP MESSAGE-----\n\naGVsbG8=\n-----END PGP MESSAGE-----\n",
         b"------BEGIN PGP MESSAGE-----\n\naGVsbG8=\n-----END PGP MESSAGE-----\n",
@@ -946,12 +984,13 @@ fn raw_cases(ctx: &mut Ctx) {
     }
     // mutated small armors
     let hs = header_sets();
+    let colon = header_sets_colon(false);
     let n = ctx.pick(6000, 120_000);
     for i in 0..n {
         let t = Typ([0u8, 1, 2, 3, 4, 5, 7, 10, 11, 15, 16][i % 11], ctx.rng.gen_range(0..30), ctx.rng.gen_range(0..30));
         let len = ctx.rng.gen_range(0..60usize);
         let data = pattern(i, len);
-        let (h, _) = &hs[i % 3];
+        let (h, _) = if i % 4 == 3 { &colon[i / 4 % colon.len()] } else { &hs[i % 3] };
         let Ok(a) = real_armor(t, h, i % 2 == 0, &data, &[], false) else { continue };
         let mut m = mutate(&mut ctx.rng, &a);
         if i % 5 == 0 {
@@ -1111,9 +1150,15 @@ pub fn run(ctx: &mut Ctx) {
     for (h, _) in [(mk_headers(&[]), 0), (mk_headers(&[("Hash", vec!["SHA256", "SHA512"])]), 0), (mk_headers(&[("Version", vec!["1"])]), 0)] {
         armor_case(ctx, Typ(6, 0, 0), &h, HClass::Plain, true, &Data::Hex(b"hello".to_vec()), false);
     }
-    // edge header sets (representable in the format; see HClass)
-    for (h, hc) in header_sets_edge() {
-        armor_case(ctx, Typ(2, 0, 0), &h, hc, true, &Data::Hex(b"hello world".to_vec()), false);
+    // header maps around the colon (every position), empty values, repeated keys; LF, CRLF and
+    // the other layout variants; cuts outside the header lines
+    let colon_sets = header_sets_colon(ctx.thorough());
+    for (i, (h, hc)) in colon_sets.iter().enumerate() {
+        let t = types[i % 5];
+        armor_case(ctx, t, h, *hc, i % 2 == 0, &Data::Hex(b"hello world".to_vec()), false);
+        let flags: Vec<usize> = if ctx.thorough() { (0..16).collect() } else { vec![1, (i * 5) % 16] };
+        variants_case(ctx, t, h, i % 2 == 0, &Data::Hex(pattern(i, i % 50)), &flags, 2);
+        ctx.stat("headers:colon-class");
     }
 
     // every payload length 0..N
